@@ -31,6 +31,9 @@ impl Check for C13 {
             (true, true) => run::<f32>(src, obs, true),
         }
     }
+    fn regressions(&self) -> Vec<(&'static str, fn() -> Result<(), Fail>)> {
+        vec![("d3-nonstandard-buffer", super::regress::d3_nonstandard_buffer)]
+    }
     fn rule(&self) -> String {
         "for each of data / x / y / query / output buffer independently a memory layout from {standard C, Fortran, every-k-th slice of a larger \
          array with offset, reversed (negative) strides, axes permuted in storage} and a storage kind (owned or view) for data, axes and query; \
